@@ -109,6 +109,8 @@ def render(model, outdir, lib_in="designspace"):
                 info = {"unitsPerEm": model["upem"]}
             for k, v in model["names"].items():
                 info[k] = v
+            if model.get("name_records"):
+                info["openTypeNameRecords"] = [{"nameID": r["id"], "platformID": 3, "encodingID": 1, "languageID": 0x409, "string": r["string"]} for r in model["name_records"]]
         info.update(m["info"])
         write_plist(os.path.join(ufo, "fontinfo.plist"), info)
         layers = [["public.default", "glyphs"]]
@@ -142,6 +144,8 @@ def render(model, outdir, lib_in="designspace"):
     for a in model["axes"]:
         hidden = ' hidden="1"' if a.get("hidden") else ""
         L.append(f'    <axis tag="{a["tag"]}" name={quoteattr(a["name"])} minimum="{fnum(a["min"])}" maximum="{fnum(a["max"])}" default="{fnum(a["default"])}"{hidden}>')
+        for lang, st in a.get("labelnames", {}).items():
+            L.append(f'      <labelname xml:lang="{lang}">{escape(st)}</labelname>')
         for u, d in a["map"]:
             L.append(f'      <map input="{fnum(u)}" output="{fnum(d)}"/>')
         for lab in a.get("labels", []):
